@@ -91,11 +91,26 @@ def _run_case(ch, st, bi):
     grids = [g, SMALL, g][:ngrids]
     array = True if ngrids > 1 else ch.choose('array', [False, True])
     obj = refjson.write(grids, ch.choose, array=array)
-    form = ch.choose('form', ['str', 'bytes', 'object', 'object-shared'])
+    # JSON text with non-ASCII characters written raw (ensure_ascii off), so that an encoding other than UTF-8 matters
+    raw = json.dumps(obj, ensure_ascii=False)
+    forms = ['str', 'bytes', 'object', 'object-shared']
+    for enc in ('utf-8', 'utf-16', 'latin-1', 'cp1252'):         # (a lone surrogate has no encoded form at all)
+        try:
+            raw.encode(enc)
+            forms.append('bytes-raw-' + enc)
+        except UnicodeError:
+            pass
+    form = ch.choose('form', forms)
     single = ch.choose('single', [True, False])
     text = json.dumps(obj)
+    kw = {}
     if form == 'str':
         src = text
+    elif form.startswith('bytes-raw-'):
+        enc = form[len('bytes-raw-'):]
+        src = raw.encode(enc)
+        if enc != 'utf-8':
+            kw = {'charset': enc}
     elif form == 'bytes':
         src = text.encode('utf-8')
     elif form == 'object':
@@ -109,7 +124,7 @@ def _run_case(ch, st, bi):
     case = {'base': bi, 'ov': dict(ch.ov)}
     key = (bi, tuple(sorted(ch.ov.items())))
     try:
-        got = hs.parse(src, mode=hs.MODE_JSON, single=single)
+        got = hs.parse(src, mode=hs.MODE_JSON, single=single, **kw)
     except Exception as e:  # noqa
         st.case(key, nontrivial=bool(devs), outcome=('raise', type(e).__name__, tuple(classes)))
         st.fail('well-formed-json-rejected', dict(sig, exc=type(e).__name__), case, {'json': text[:1200], 'form': form, 'single': single, 'exc': repr(e)[:300]})
